@@ -252,7 +252,7 @@ class Node(ModelElement):
         node_sliver.set_property(prop_name=pname, prop_val=pval)
         # write into the graph
         prop_dict = self.topo.graph_model.node_sliver_to_graph_properties_dict(node_sliver)
-        self.topo.graph_model.update_node_properties(node_id=self.node_id, props=prop_dict)
+        self._write_properties(prop_dict, (pname,))
 
     def set_properties(self, **kwargs):
         """
@@ -264,7 +264,7 @@ class Node(ModelElement):
         node_sliver.set_properties(**kwargs)
         # write into the graph
         prop_dict = self.topo.graph_model.node_sliver_to_graph_properties_dict(node_sliver)
-        self.topo.graph_model.update_node_properties(node_id=self.node_id, props=prop_dict)
+        self._write_properties(prop_dict, kwargs.keys())
 
     @staticmethod
     def list_properties() -> Tuple[str]:
